@@ -207,6 +207,18 @@ CHECKS["C19"] = dict(
          "2^-50 slack). 'Within tolerance' is read as the implementation applies it (to angle/pi). At most 8 loop iterations (checked).",
     design="3/C19")
 
+CHECKS["C17"] = dict(
+    engine="crosshair",
+    technique="CrossHair 0.0.110 (symbolic execution of Python with z3): generated PEP-316 harnesses, one condition per instruction class; only 'Confirmed over all paths' counts",
+    text="For every instruction class of every flavour (read from the real tables) a generated harness makes one numeric leaf at a time "
+         "(register index, bank, immediate, integer, address; plus 8 boundary constants for signed fields) symbolic and CrossHair must "
+         "confirm over all paths that parse_text_subroutine(str(instr), flavour) == [instr]; the harness process first parses every "
+         "mnemonic with the other flavours (a process normally uses several). Because the tokenizer inspects characters CrossHair "
+         "realises the numerals: the verdict is exhaustive for the stated value sets (solver-driven enumeration), nothing beyond.",
+    note="Trusted: CrossHair's 'Confirmed over all paths'. Quick: 6 curated values per leaf; thorough: 24 consecutive values. "
+         "Counterexamples are replayed concretely in-process. Longer numerals are outside.",
+    design="3/C17")
+
 NOT_YET = "check not built yet in this revision (work in progress; see DESIGN.md section 3 for the planned solver-based check)"
 NOT_APPLICABLE = {}
 
